@@ -119,10 +119,13 @@ func exprKey(info *types.Info, e ast.Expr) (string, bool) {
 type frameWalker struct {
 	c        *Ctx
 	info     *types.Info
-	stackKey string // exprKey of the tracked variable (identifier or field selection)
-	push     *types.Func  // funcGen.Stack.Push
-	frame    *types.Func  // funcGen.Stack.CreateFrame
+	stackKey string      // exprKey of the tracked variable (identifier or field selection)
+	push     *types.Func // funcGen.Stack.Push
+	frame    *types.Func // funcGen.Stack.CreateFrame
 	lenAlias map[string]lin
+	// resultLen, if set, summarises helper calls: the expression whose length the given result of
+	// the call has when the call's error result is nil (nil, false if unknown)
+	resultLen func(call *ast.CallExpr, result int) (ast.Expr, bool)
 
 	// callbacks
 	onCall  func(call *ast.CallExpr, delta lin) // every call expression, before its own effect
@@ -351,11 +354,63 @@ func (w *frameWalker) recordAliases(lhs []ast.Expr, rhs []ast.Expr) {
 }
 
 func (w *frameWalker) stmts(list []ast.Stmt, st *fwState) {
-	for _, s := range list {
+	for i, s := range list {
 		if st.dead {
 			return
 		}
 		w.stmt(s, st)
+		if as, ok := s.(*ast.AssignStmt); ok && w.resultLen != nil && len(as.Rhs) == 1 && len(as.Lhs) >= 2 && i+1 < len(list) {
+			w.helperResult(as, list[i+1])
+		}
+	}
+}
+
+// helperResult records the length of a slice returned by a summarised helper:
+//
+//	xs, err := helper(fs, ...); if err != nil { return ... }
+//
+// The summary holds for a nil error only, so the error test has to follow directly.
+func (w *frameWalker) helperResult(as *ast.AssignStmt, next ast.Stmt) {
+	call, ok := ast.Unparen(as.Rhs[0]).(*ast.CallExpr)
+	if !ok {
+		return
+	}
+	errID, ok := as.Lhs[len(as.Lhs)-1].(*ast.Ident)
+	if !ok {
+		return
+	}
+	ifs, ok := next.(*ast.IfStmt)
+	if !ok || ifs.Init != nil || len(ifs.Body.List) == 0 {
+		return
+	}
+	be, ok := ast.Unparen(ifs.Cond).(*ast.BinaryExpr)
+	if !ok || be.Op != token.NEQ {
+		return
+	}
+	x, okx := ast.Unparen(be.X).(*ast.Ident)
+	y, oky := ast.Unparen(be.Y).(*ast.Ident)
+	if !okx || !oky || y.Name != "nil" || w.info.ObjectOf(x) != w.info.ObjectOf(errID) {
+		return
+	}
+	if _, isRet := ifs.Body.List[len(ifs.Body.List)-1].(*ast.ReturnStmt); !isRet {
+		return
+	}
+	for i, l := range as.Lhs[:len(as.Lhs)-1] {
+		e, ok := w.resultLen(call, i)
+		if !ok {
+			continue
+		}
+		k, ok := exprKey(w.info, l)
+		if !ok {
+			continue
+		}
+		if k2, ok := exprKey(w.info, e); ok {
+			if a, ok := w.lenAlias[k2]; ok {
+				w.lenAlias[k] = a
+			} else {
+				w.lenAlias[k] = lin{terms: map[string]int{k2: 1}}
+			}
+		}
 	}
 }
 
